@@ -978,52 +978,51 @@ theorem getLast?_ne {l : Bytes} (h : ∀ a ∈ l, a ≠ 92) : l.getLast? ≠ som
   intro hc
   exact h 92 (List.mem_of_getLast? hc) rfl
 
-theorem lexAux_nil (fuel : Nat) (m : LexMode) (prev : Option UInt8) : lexAux fuel m prev [] = [] := by
+theorem lexAux_nil (fuel : Nat) (m : LexMode) (esc : Bool) : lexAux fuel m esc [] = [] := by
   cases fuel <;> simp [lexAux]
 
 /-- whitespace is skipped -/
-theorem lex_ws : ∀ (w s : Bytes) (fuel : Nat) (prev : Option UInt8), w.all isWs = true → prev ≠ some 92 →
+theorem lex_ws : ∀ (w s : Bytes) (fuel : Nat), w.all isWs = true →
     (w ++ s).length + 1 ≤ fuel →
-    ∃ fuel' prev', s.length + 1 ≤ fuel' ∧ prev' ≠ some 92 ∧
-      lexAux fuel .code prev (w ++ s) = lexAux fuel' .code prev' s
-  | [], s, fuel, prev, _, hp, hf => ⟨fuel, prev, by simpa using hf, hp, rfl⟩
-  | c :: w, s, fuel, prev, hw, hp, hf => by
+    ∃ fuel', s.length + 1 ≤ fuel' ∧
+      lexAux fuel .code false (w ++ s) = lexAux fuel' .code false s
+  | [], s, fuel, _, hf => ⟨fuel, by simpa using hf, rfl⟩
+  | c :: w, s, fuel, hw, hf => by
     obtain ⟨g, rfl⟩ : ∃ g, fuel = g + 1 := ⟨fuel - 1, by simp at hf; omega⟩
     simp only [List.all_cons, Bool.and_eq_true] at hw
     have hc := class_ws c
     simp only [hw.1, Bool.not_true, Bool.false_or, Bool.and_eq_true, Bool.not_eq_true', bne_iff_ne, isQuoteCh] at hc
-    obtain ⟨fuel', prev', h1, h2, h3⟩ := lex_ws w s g (some c) hw.2 (by simp [hc])
-      (by simp at hf ⊢; omega)
-    refine ⟨fuel', prev', h1, h2, ?_⟩
+    obtain ⟨fuel', h1, h3⟩ := lex_ws w s g hw.2 (by simp at hf ⊢; omega)
+    refine ⟨fuel', h1, ?_⟩
     rw [← h3, List.cons_append, lexAux.eq_def]
-    simp [hc, hw.1]
+    simp [hc, hw.1, beq_eq_false_iff_ne.2 hc.1.1.1.1.1.2]
 
 
 /-- inside a string literal opened by `"` -/
-theorem lex_strBody : ∀ (v acc next : Bytes) (fuel : Nat) (prev : Option UInt8),
-    (∀ c ∈ v, c ≠ 34 ∧ c ≠ 92) → prev ≠ some 92 → (v ++ 34 :: next).length + 1 ≤ fuel →
+theorem lex_strBody : ∀ (v acc next : Bytes) (fuel : Nat),
+    (∀ c ∈ v, c ≠ 34 ∧ c ≠ 92) → (v ++ 34 :: next).length + 1 ≤ fuel →
     ∃ fuel', next.length + 1 ≤ fuel' ∧
-      lexAux fuel (.str 34 acc) prev (v ++ 34 :: next) = tk STRING (acc.reverse ++ v) :: lexAux fuel' .code (some 34) next
-  | [], acc, next, fuel, prev, _, hp, hf => by
+      lexAux fuel (.str 34 acc) false (v ++ 34 :: next) = tk STRING (acc.reverse ++ v) :: lexAux fuel' .code false next
+  | [], acc, next, fuel, _, hf => by
     obtain ⟨g, rfl⟩ : ∃ g, fuel = g + 1 := ⟨fuel - 1, by simp at hf; omega⟩
     refine ⟨g, by simp at hf; omega, ?_⟩
     rw [List.nil_append, lexAux.eq_def]
-    simp [hp]
-  | c :: v, acc, next, fuel, prev, hv, hp, hf => by
+    simp
+  | c :: v, acc, next, fuel, hv, hf => by
     obtain ⟨g, rfl⟩ : ∃ g, fuel = g + 1 := ⟨fuel - 1, by simp at hf; omega⟩
     have hc := hv c (by simp)
-    obtain ⟨fuel', h1, h2⟩ := lex_strBody v (c :: acc) next g (some c) (fun x hx => hv x (by simp [hx]))
-      (by simp [hc.2]) (by simp at hf ⊢; omega)
+    obtain ⟨fuel', h1, h2⟩ := lex_strBody v (c :: acc) next g (fun x hx => hv x (by simp [hx]))
+      (by simp at hf ⊢; omega)
     refine ⟨fuel', h1, ?_⟩
     rw [List.cons_append, lexAux.eq_def]
-    simp [hc.1, h2]
+    simp [hc.1, beq_eq_false_iff_ne.2 hc.2, h2]
 
 /-- one token is read back, whatever follows, provided the next byte does not fuse with it -/
-theorem lex_tok (t : Token) (next : Bytes) (fuel : Nat) (prev : Option UInt8)
-    (ht : TokOk t = true) (hfo : followOk t next = true) (hp : prev ≠ some 92)
+theorem lex_tok (t : Token) (next : Bytes) (fuel : Nat)
+    (ht : TokOk t = true) (hfo : followOk t next = true)
     (hf : (tokBytes t ++ next).length + 1 ≤ fuel) :
-    ∃ fuel' prev', next.length + 1 ≤ fuel' ∧ prev' ≠ some 92 ∧
-      lexAux fuel .code prev (tokBytes t ++ next) = t :: lexAux fuel' .code prev' next := by
+    ∃ fuel', next.length + 1 ≤ fuel' ∧
+      lexAux fuel .code false (tokBytes t ++ next) = t :: lexAux fuel' .code false next := by
   rcases t with ⟨k, v⟩
   unfold TokOk at ht
   simp only at ht
@@ -1039,13 +1038,7 @@ theorem lex_tok (t : Token) (next : Bytes) (fuel : Nat) (prev : Option UInt8)
       obtain ⟨g, rfl⟩ : ∃ g, fuel = g + 1 := ⟨fuel - 1, by simp [tokBytes] at hf; omega⟩
       have htw := takeWhile_stop (p := isIdentChar) (l := more) (next := next) ht.2 (by
         intro n r hn; subst hn; simpa [followOk, NAME] using hfo)
-      refine ⟨g, (c :: more).getLast?, by simp [tokBytes, NAME, STRING] at hf; omega, ?_, ?_⟩
-      · apply getLast?_ne
-        intro a ha
-        have := class_identChar a
-        rcases List.mem_cons.1 ha with rfl | ha
-        · simpa [hc.2] using this
-        · simpa [ht.2 a ha] using this
+      refine ⟨g, by simp [tokBytes, NAME, STRING] at hf; omega, ?_⟩
       · simp only [tokBytes, NAME, STRING, Nat.reduceBEq, Bool.false_eq_true, if_false, List.cons_append]
         rw [lexAux.eq_def]
         simp [hc, ht.1, htw, tk, NAME]
@@ -1062,14 +1055,7 @@ theorem lex_tok (t : Token) (next : Bytes) (fuel : Nat) (prev : Option UInt8)
         have hfo' : ∀ n r, next = n :: r → isDigit n = false ∧ n ≠ 46 := by
           intro n r hn; subst hn; simpa [followOk, NAME, NUMBER] using hfo
         have htw := takeWhile_stop (p := isDigit) (l := ds) (next := next) ht.2 (fun n r hn => (hfo' n r hn).1)
-        refine ⟨g, (c :: ds).getLast?, by simp [tokBytes, NUMBER, STRING] at hf; omega, ?_, ?_⟩
-        · apply getLast?_ne
-          intro a ha
-          have h92 : isDigit a = true → a ≠ 92 := by
-            intro hd; have := class_digit a; simp [hd] at this; exact this.2
-          rcases List.mem_cons.1 ha with rfl | ha
-          · exact h92 ht.1
-          · exact h92 (ht.2 a ha)
+        refine ⟨g, by simp [tokBytes, NUMBER, STRING] at hf; omega, ?_⟩
         · simp only [tokBytes, NUMBER, STRING, Nat.reduceBEq, Bool.false_eq_true, if_false, List.cons_append]
           rw [lexAux.eq_def]
           simp only [hc, ht.1, htw, tk, NUMBER]
@@ -1081,12 +1067,12 @@ theorem lex_tok (t : Token) (next : Bytes) (fuel : Nat) (prev : Option UInt8)
         rename_i _ _ hk; simp only [beq_iff_eq] at hk; subst hk
         simp only [List.all_eq_true, Bool.and_eq_true, bne_iff_ne] at ht
         obtain ⟨g, rfl⟩ : ∃ g, fuel = g + 1 := ⟨fuel - 1, by simp [tokBytes] at hf; omega⟩
-        obtain ⟨fuel', h1, h2⟩ := lex_strBody v [] next g (some 34) ht (by simp)
+        obtain ⟨fuel', h1, h2⟩ := lex_strBody v [] next g ht
           (by simp [tokBytes, STRING] at hf ⊢; omega)
-        refine ⟨fuel', some 34, h1, by simp, ?_⟩
+        refine ⟨fuel', h1, ?_⟩
         simp only [tokBytes, STRING, beq_self_eq_true, if_true, List.cons_append, List.append_assoc]
         rw [lexAux.eq_def]
-        simp [hp, h2, tk, STRING]
+        simp [h2, tk, STRING]
       · split at ht
         · -- OPERATOR
           rename_i _ _ _ hk; simp only [beq_iff_eq] at hk; subst hk
@@ -1095,20 +1081,20 @@ theorem lex_tok (t : Token) (next : Bytes) (fuel : Nat) (prev : Option UInt8)
             have hc := class_op c
             simp only [ht, Bool.not_true, Bool.false_or, Bool.and_eq_true, Bool.not_eq_true', isQuoteCh, Bool.or_eq_false_iff, bne_iff_ne] at hc
             obtain ⟨g, rfl⟩ : ∃ g, fuel = g + 1 := ⟨fuel - 1, by simp [tokBytes] at hf; omega⟩
-            refine ⟨g, some c, by simp [tokBytes, OPERATOR, STRING] at hf; omega, by simp [hc.2], ?_⟩
+            refine ⟨g, by simp [tokBytes, OPERATOR, STRING] at hf; omega, ?_⟩
             simp only [tokBytes, OPERATOR, STRING, Nat.reduceBEq, Bool.false_eq_true, if_false, List.cons_append, List.nil_append]
             rw [lexAux.eq_def]
             cases next with
             | nil => simp [hc, ht, tk, OPERATOR, lexAux_nil]
             | cons n r =>
               have : fusesWith c n = false := by simpa [followOk, NAME, NUMBER, OPERATOR] using hfo
-              simp [hc, ht, this, tk, OPERATOR]
+              simp [hc, ht, this, tk, OPERATOR, beq_eq_false_iff_ne.2 hc.2]
           · rename_i c n
             simp only [Bool.and_eq_true] at ht
             have hc := class_op c
             simp only [ht.1, Bool.not_true, Bool.false_or, Bool.and_eq_true, Bool.not_eq_true', isQuoteCh, Bool.or_eq_false_iff, bne_iff_ne] at hc
             obtain ⟨g, rfl⟩ : ∃ g, fuel = g + 1 := ⟨fuel - 1, by simp [tokBytes] at hf; omega⟩
-            refine ⟨g, some n, by simp [tokBytes, OPERATOR, STRING] at hf; omega, by simp [class_fuse c n ht.2], ?_⟩
+            refine ⟨g, by simp [tokBytes, OPERATOR, STRING] at hf; omega, ?_⟩
             simp only [tokBytes, OPERATOR, STRING, Nat.reduceBEq, Bool.false_eq_true, if_false, List.cons_append, List.nil_append]
             rw [lexAux.eq_def]
             simp [hc, ht.1, ht.2, tk, OPERATOR]
@@ -1121,32 +1107,32 @@ theorem lex_tok (t : Token) (next : Bytes) (fuel : Nat) (prev : Option UInt8)
               have hc := class_punct c
               simp only [ht, Bool.not_true, Bool.false_or, Bool.and_eq_true, Bool.not_eq_true', isQuoteCh, Bool.or_eq_false_iff, bne_iff_ne] at hc
               obtain ⟨g, rfl⟩ : ∃ g, fuel = g + 1 := ⟨fuel - 1, by simp [tokBytes] at hf; omega⟩
-              refine ⟨g, some c, by simp [tokBytes, PUNCT, STRING] at hf; omega, by simp [hc.2], ?_⟩
+              refine ⟨g, by simp [tokBytes, PUNCT, STRING] at hf; omega, ?_⟩
               simp only [tokBytes, PUNCT, STRING, Nat.reduceBEq, Bool.false_eq_true, if_false, List.cons_append, List.nil_append]
               rw [lexAux.eq_def]
-              simp [hc, ht, tk, PUNCT]
+              simp [hc, ht, tk, PUNCT, beq_eq_false_iff_ne.2 hc.2]
             · simp at ht
           · simp at ht
 
-theorem lex_spell : ∀ (toks : List Token) (ws : List Bytes) (fuel : Nat) (prev : Option UInt8),
-    Separated toks ws = true → prev ≠ some 92 → (spellToks toks ws).length + 1 ≤ fuel →
-    lexAux fuel .code prev (spellToks toks ws) = toks
-  | [], ws, fuel, prev, hs, hp, hf => by
+theorem lex_spell : ∀ (toks : List Token) (ws : List Bytes) (fuel : Nat),
+    Separated toks ws = true → (spellToks toks ws).length + 1 ≤ fuel →
+    lexAux fuel .code false (spellToks toks ws) = toks
+  | [], ws, fuel, hs, hf => by
     simp only [Separated] at hs
     simp only [spellToks] at hf ⊢
-    obtain ⟨fuel', prev', _, _, h⟩ := lex_ws (ws.headD []) [] fuel prev hs hp (by simpa using hf)
+    obtain ⟨fuel', _, h⟩ := lex_ws (ws.headD []) [] fuel hs (by simpa using hf)
     simp only [List.append_nil] at h
     rw [h, lexAux_nil]
-  | t :: ts, ws, fuel, prev, hs, hp, hf => by
+  | t :: ts, ws, fuel, hs, hf => by
     simp only [Separated, Bool.and_eq_true] at hs
     simp only [spellToks] at hf ⊢
-    obtain ⟨f1, p1, hf1, hp1, h1⟩ := lex_ws (ws.headD []) _ fuel prev hs.1.1.1 hp hf
-    obtain ⟨f2, p2, hf2, hp2, h2⟩ := lex_tok t _ f1 p1 hs.1.1.2 hs.1.2 hp1 hf1
-    rw [h1, h2, lex_spell ts ws.tail f2 p2 hs.2 hp2 hf2]
+    obtain ⟨f1, hf1, h1⟩ := lex_ws (ws.headD []) _ fuel hs.1.1.1 hf
+    obtain ⟨f2, hf2, h2⟩ := lex_tok t _ f1 hs.1.1.2 hs.1.2 hf1
+    rw [h1, h2, lex_spell ts ws.tail f2 hs.2 hf2]
 
 theorem lexExpr_spell (toks : List Token) (ws : List Bytes) (h : Separated toks ws = true) :
     lexExpr (spellToks toks ws) = toks :=
-  lex_spell toks ws _ none h (by simp) (Nat.le_refl _)
+  lex_spell toks ws _ h (Nat.le_refl _)
 
 
 /-! ## Spacing that always separates; the printed tokens are lexable -/
